@@ -26,6 +26,8 @@ type Extractor struct {
 	cloFn           map[AtomID]*ssa.MakeClosure
 	cloFC           map[AtomID]*FC // the context that created the closure
 	BenignWriteTags map[string]bool
+	caseBudget      int
+	inSign          bool
 	phiOf           map[AtomID]*ssa.Phi
 	phiFC           map[AtomID]*FC
 	memphiOf        map[AtomID]memphiInfo
@@ -117,6 +119,7 @@ func (fc *FC) errf(format string, args ...interface{}) {
 // EvalCond decides a condition under assumptions (Unknown when it cannot).
 func (x *Extractor) EvalCond(c *RF, assume []Assumption) Tri {
 	s := x.S
+	assume = expandAssumptions(assume)
 	for _, a := range assume {
 		if a.Cond != nil && a.Cond.Equal(c) {
 			if a.True {
@@ -201,7 +204,10 @@ func (x *Extractor) EvalCond(c *RF, assume []Assumption) Tri {
 		}
 		cst, ok := d.IsConst()
 		if !ok {
-			return x.evalByRegions(at.Name, d, assume, sub)
+			if t := x.evalByRegions(at.Name, d, assume, sub); t != Unknown {
+				return t
+			}
+			return x.evalBySign(at.Name, d, assume)
 		}
 		sg := cst.Sign()
 		var res bool
@@ -901,6 +907,11 @@ func (fc *FC) defValue(c cellKey, cellType types.Type, d ssa.Instruction) *RF {
 		st := d.(*ssa.Store)
 		return fc.X.fieldOf(fc.Val(st.Val), st.Val.Type(), c.field)
 	}
+	if call, ok := d.(*ssa.Call); ok && c.field >= 0 {
+		if v := fc.fieldAfterCall(call, c, cellType); v != nil {
+			return v
+		}
+	}
 	return fc.X.S.Var(fmt.Sprintf("clobber:%s:%s.%d", fc.X.W.InstrPos(d), c.base.Name(), c.field), false)
 }
 
@@ -1515,7 +1526,11 @@ func (x *Extractor) inline(f *ssa.Function, args []*RF, parent *FC) *RF {
 }
 
 // retVal: gated value returned by executing from block b (acyclic CFG).
-func (fc *FC) retVal(b *ssa.BasicBlock, depth int) *RF {
+func (fc *FC) retVal(b *ssa.BasicBlock, depth int) *RF { return fc.gatedReturns(b, depth, nil) }
+
+// gatedReturns: the value leaf(return) — by default the returned value(s) —
+// gated over the branch conditions on the way from b to each return.
+func (fc *FC) gatedReturns(b *ssa.BasicBlock, depth int, leaf func(*ssa.Return) *RF) *RF {
 	s := fc.X.S
 	if depth > 40 {
 		return nil
@@ -1541,12 +1556,15 @@ func (fc *FC) retVal(b *ssa.BasicBlock, depth int) *RF {
 			return nil
 		}
 		for _, e := range exits {
-			return fc.retVal(e, depth+1)
+			return fc.gatedReturns(e, depth+1, leaf)
 		}
 	}
 	last := b.Instrs[len(b.Instrs)-1]
 	switch t := last.(type) {
 	case *ssa.Return:
+		if leaf != nil {
+			return leaf(t)
+		}
 		if len(t.Results) == 0 {
 			return s.Var("void", false)
 		}
@@ -1561,14 +1579,14 @@ func (fc *FC) retVal(b *ssa.BasicBlock, depth int) *RF {
 	case *ssa.Panic:
 		return s.Bottom()
 	case *ssa.Jump:
-		return fc.retVal(b.Succs[0], depth+1)
+		return fc.gatedReturns(b.Succs[0], depth+1, leaf)
 	case *ssa.If:
 		var tv, fv *RF
 		if fc.Ctx.EdgeLive(b, 0) {
-			tv = fc.retVal(b.Succs[0], depth+1)
+			tv = fc.gatedReturns(b.Succs[0], depth+1, leaf)
 		}
 		if fc.Ctx.EdgeLive(b, 1) {
-			fv = fc.retVal(b.Succs[1], depth+1)
+			fv = fc.gatedReturns(b.Succs[1], depth+1, leaf)
 		}
 		switch {
 		case tv == nil && fv == nil:
@@ -1671,4 +1689,152 @@ func (x *Extractor) pureForInline(f *ssa.Function) bool {
 		}
 	}
 	return true
+}
+
+// fieldAfterCall: the value of field c.field of the struct c.base points to
+// after a static call that receives the pointer and writes through it: the
+// callee's own value of that field at its return(s), computed with the
+// pointer bound to a reference to the struct's value just before the call
+// (a mutating helper extracted from its caller is followed like inline code).
+func (fc *FC) fieldAfterCall(call *ssa.Call, c cellKey, cellType types.Type) *RF {
+	x := fc.X
+	cm := call.Common()
+	f := cm.StaticCallee()
+	if f == nil || f.Blocks == nil || len(cm.Args) != len(f.Params) || x.depth[f] > 0 || len(f.Blocks) > 3*x.MaxInlineBlocks {
+		return nil
+	}
+	if f.Pkg == nil || !x.W.IsLib[f.Pkg] {
+		return nil
+	}
+	st, ok := cellType.Underlying().(*types.Struct)
+	if !ok {
+		return nil
+	}
+	which := -1
+	for i, a := range cm.Args {
+		if a == c.base {
+			if which >= 0 {
+				return nil // passed twice: aliasing inside the callee
+			}
+			which = i
+		}
+	}
+	if which < 0 {
+		return nil
+	}
+	x.depth[f]++
+	defer func() { x.depth[f]-- }()
+	bind := map[*ssa.Parameter]*RF{}
+	args := make([]*RF, len(f.Params))
+	for i, p := range f.Params {
+		if i == which {
+			fs := make([]*RF, st.NumFields())
+			for k := range fs {
+				fs[k] = fc.cellValue(cellKey{c.base, k}, cellType, call)
+			}
+			args[i] = x.S.MakeFn("ref", x.mkStruct(cellType, fs))
+		} else {
+			args[i] = fc.Val(cm.Args[i])
+		}
+		bind[p] = args[i]
+	}
+	sub := x.newFC(f, bind, nil)
+	sub.bindArgs = args
+	key := cellKey{f.Params[which], c.field}
+	v := sub.gatedReturns(f.Blocks[0], 0, func(rt *ssa.Return) *RF {
+		return sub.cellValue(key, cellType, rt)
+	})
+	if v == nil || x.S.isBottom(v) {
+		return nil
+	}
+	return v
+}
+
+// evalBySign decides a comparison with difference d = l - r by the sign
+// analysis of engine D over the assumed conditions (sums of facts,
+// non-negativity of len/cap and of documented domain quantities): e.g.
+// bin<0 makes len(bins)<=bin false.
+func (x *Extractor) evalBySign(name string, d *RF, assume []Assumption) Tri {
+	if len(assume) == 0 || x.inSign {
+		return Unknown
+	}
+	x.inSign = true
+	defer func() { x.inSign = false }()
+	g := &Signer{X: x, assumed: map[AtomID]bool{}, Used: map[string]bool{}}
+	for _, a := range assume {
+		if a.Cond == nil {
+			continue
+		}
+		c := a.Cond
+		if !a.True {
+			c = x.S.Not(c)
+		}
+		g.addFact(c)
+	}
+	if len(g.facts) == 0 {
+		return Unknown
+	}
+	pos, neg := g.Pos(d), g.Pos(d.Neg()) // l>r, l<r
+	switch name {
+	case "cmp<":
+		if neg {
+			return True
+		}
+		if pos || g.NonNeg(d) {
+			return False
+		}
+	case "cmp<=":
+		if neg || g.NonNeg(d.Neg()) {
+			return True
+		}
+		if pos {
+			return False
+		}
+	case "cmp==":
+		if pos || neg {
+			return False
+		}
+	case "cmp!=":
+		if pos || neg {
+			return True
+		}
+	}
+	return Unknown
+}
+
+// expandAssumptions adds the consequences of compound assumptions: a false
+// disjunction makes every disjunct false, a true conjunction every conjunct
+// true, a negation flips.
+func expandAssumptions(assume []Assumption) []Assumption {
+	need := false
+	for _, a := range assume {
+		if a.Cond != nil {
+			if at := a.Cond.SingleAtom(); at != nil && (at.Name == "lor" && !a.True || at.Name == "land" && a.True || at.Name == "not") {
+				need = true
+			}
+		}
+	}
+	if !need {
+		return assume
+	}
+	out := append([]Assumption{}, assume...)
+	for i := 0; i < len(out) && i < 256; i++ {
+		a := out[i]
+		if a.Cond == nil {
+			continue
+		}
+		at := a.Cond.SingleAtom()
+		if at == nil {
+			continue
+		}
+		switch {
+		case at.Name == "lor" && !a.True, at.Name == "land" && a.True:
+			for _, arg := range at.Args {
+				out = append(out, Assumption{Cond: arg, True: a.True})
+			}
+		case at.Name == "not":
+			out = append(out, Assumption{Cond: at.Args[0], True: !a.True})
+		}
+	}
+	return out
 }
